@@ -16,6 +16,7 @@ import (
 	"github.com/ethereum/go-ethereum/core/types/goattypes"
 	bitcointypes "github.com/goatnetwork/goat/x/bitcoin/types"
 	goatxtypes "github.com/goatnetwork/goat/x/goat/types"
+	lockingtypes "github.com/goatnetwork/goat/x/locking/types"
 	relayertypes "github.com/goatnetwork/goat/x/relayer/types"
 
 	"verif/harness/vc"
@@ -289,7 +290,11 @@ func c19Requests(r *rand.Rand, w *world.World, h int64) *world.Requests {
 func c19Case(c *vc.Ctx, idx int) {
 	r := world.NewRand(c.Seed, "c19", idx)
 	w, err := world.New(world.Config{Seed: c.Seed, Label: fmt.Sprintf("c19-%d", idx), NVals: 2, NRelayers: 3,
-		Relayer: func(g *relayertypes.GenesisState) { g.Params.ElectingPeriod = 10 * time.Minute }})
+		Relayer: func(g *relayertypes.GenesisState) { g.Params.ElectingPeriod = 10 * time.Minute },
+		Locking: func(g *lockingtypes.GenesisState) {
+			g.Params.UnlockDuration = 3 * time.Second
+			g.Params.ExitingDuration = 6 * time.Second
+		}})
 	if err != nil {
 		c.Inconclusive("world: %v", err)
 		return
@@ -421,6 +426,15 @@ func c19Case(c *vc.Ctx, idx int) {
 		h := ch.Height + 1
 		t := ch.Now.Add(3 * time.Second)
 		reqs := c19Requests(r, w, h)
+		if blk%3 == 0 {
+			// a well-behaved block now and then, so that both hand-over queues are non-empty when hostile payloads arrive
+			reqs = &world.Requests{Gas: big.NewInt(1000)}
+			for k := 0; k < 1+r.Intn(3); k++ {
+				reqs.Locking.Claims = append(reqs.Locking.Claims, &goattypes.ClaimRequest{Id: uint64(blk*10 + k), Validator: common.BytesToAddress(w.Vals[k%2].Cons), Recipient: common.HexToAddress("0x0a")})
+				reqs.Locking.Unlocks = append(reqs.Locking.Unlocks, &goattypes.UnlockRequest{Id: uint64(blk*10 + k), Validator: common.BytesToAddress(w.Vals[1].Cons), Recipient: common.HexToAddress("0x0b"), Token: common.Address{}, Amount: big.NewInt(int64(1000 + k))})
+				reqs.Bridge.Withdraws = append(reqs.Bridge.Withdraws, &goattypes.WithdrawalRequest{Id: uint64(1000 + blk*10 + k), Amount: 20000, TxPrice: 2, Address: "nowhere"})
+			}
+		}
 		record("PrepareProposal+requests", fmt.Sprintf("%+v", reqs))
 		lc := ch.LastCommitInfo(nil)
 		ptxs, perr := ch.Prepare(0, h, t, reqs)
@@ -459,6 +473,52 @@ func c19Case(c *vc.Ctx, idx int) {
 						}
 						c.Eval(1)
 					}
+				}
+			}
+		}
+		// structure-level mutants of the payload's system transactions (run in the unrecovered goroutines of ProcessProposal)
+		if p := world.DecodeBlockTx(w, ptxs); p != nil && nsys(p) > 0 {
+			n := nsys(p)
+			var variants []*goatxtypes.ExecutionPayload
+			mk := func(keep [][]byte, count int) {
+				q := clonePayload(p)
+				q.Transactions = append(append([][]byte{}, keep...), p.Transactions[n:]...)
+				if count >= 0 {
+					q.ExtraData = append([]byte{byte(count)}, q.ExtraData[1:]...)
+				}
+				world.Rehash(q)
+				variants = append(variants, q)
+			}
+			var bridge, locking [][]byte
+			for i := 0; i < n; i++ {
+				if st, err := world.DecodeSysTx(p.Transactions[i]); err == nil && st.Module == uint8(goattypes.LockingModule) {
+					locking = append(locking, p.Transactions[i])
+				} else {
+					bridge = append(bridge, p.Transactions[i])
+				}
+			}
+			mk(bridge, len(bridge))       // locking hand-overs withheld
+			mk(bridge, -1)                // ... with the count byte left as it was
+			mk(locking, len(locking))     // bridge hand-overs withheld
+			mk(p.Transactions[:n-1], n-1) // last one withheld
+			mk(p.Transactions[:n-1], -1)  // list shorter than the declared count
+			mk(p.Transactions[:n], n+3)   // count larger than the list
+			mk(nil, 0)                    // everything withheld
+			mk(append([][]byte{}, p.Transactions[:n]...), 255)
+			for vi, q := range variants {
+				tx, err := ch.BlockTx(0, h, w.ValAddrStr(0), q)
+				if err != nil {
+					continue
+				}
+				record(fmt.Sprintf("ProcessProposal payload with tampered system transactions (variant %d, %d bridge + %d locking due)", vi, len(bridge), len(locking)), tx)
+				okp, _ := ch.Process(0, 0, h, t, [][]byte{tx}, lc, nil)
+				c.Eval(1)
+				c.Count("tampered_payloads_through_process", 1)
+				if len(bridge) > 0 && len(locking) > 0 {
+					c.Count("tampered_payloads_with_both_queues_due", 1)
+				}
+				if okp {
+					c.Count("tampered_payloads_accepted", 1)
 				}
 			}
 		}
@@ -548,7 +608,7 @@ func setProposerAny(m sdk.Msg, p string) {
 func init() {
 	vc.Register(&vc.Check{
 		ID: "C19", Title: "No input can crash the node or halt block processing; failures change nothing", Level: "exploration",
-		Rule: "one case = one history (22/70 blocks; fewer on sanitizer builds) in which every block carries up to 11 mutants of well-formed messages of every relayer/bridge type (corpus regenerated for the current state: all five voted kinds with valid quorums, deposits with a genuine SPV proof, finalisation, cancellation approval, acceptance, voter registration), mutated at protobuf level (bit flips, truncation, duplicated/deleted/emptied fields i.e. nil sub-messages, nested mutation, length prefix +-1, 32 KiB fields, odd-length byte fields such as bitmaps and keys, non-canonical varints, inserted bytes), decoded back and re-signed so that they reach the handlers; 3 byte-level mutants of whole transactions; a hostile execution-layer request list (random decodable requests with amounts up to 2^256-1, unknown validators/tokens, 255 typed requests, unknown type bytes, byte-mutated encodings); every fourth block a mutated block message through ProcessProposal; " +
+		Rule: "one case = one history (22/70 blocks; fewer on sanitizer builds) in which every block carries up to 11 mutants of well-formed messages of every relayer/bridge type (corpus regenerated for the current state: all five voted kinds with valid quorums, deposits with a genuine SPV proof, finalisation, cancellation approval, acceptance, voter registration), mutated at protobuf level (bit flips, truncation, duplicated/deleted/emptied fields i.e. nil sub-messages, nested mutation, length prefix +-1, 32 KiB fields, odd-length byte fields such as bitmaps and keys, non-canonical varints, inserted bytes), decoded back and re-signed so that they reach the handlers; 3 byte-level mutants of whole transactions; a hostile execution-layer request list (random decodable requests with amounts up to 2^256-1, unknown validators/tokens, 255 typed requests, unknown type bytes, byte-mutated encodings); every fourth block a protobuf-mutated block message and, whenever hand-overs are due, eight structure-level variants of the payload's system transactions (locking or bridge hand-overs withheld, list shorter or longer than the declared count, everything withheld) through ProcessProposal, whose checks run in goroutines no recover() protects; " +
 			"all delivered through CheckTx, PrepareProposal, ProcessProposal and FinalizeBlock. Oracles: the worker process survives (exit status, no panic/fatal/sanitizer report; last input logged before delivery), FinalizeBlock never errors, and after every block all store hashes equal a twin that executed only what succeeded (failed transactions replaced by sequence-neutral fillers). Runs on the plain, -race (checkptr) and -asan builds. Non-trivial = a mutant that still decodes as a message and reaches FinalizeBlock; distinct = (message type, operator, verdict).",
 		Assume: []string{"block-level failures of the block message caused by hostile request lists are allowed (the message fails, the block is processed)", "mutants are reached only as far as they still decode"},
 		Cases:  func(tier string) int { return map[string]int{"quick": 8, "thorough": 64}[tier] },
